@@ -52,11 +52,19 @@ class PatternMatch(typ.NamedTuple):
 PatternMatches = typ.Iterable[PatternMatch]
 
 
-def _iter_for_pattern(lines: typ.List[str], pattern: Pattern) -> PatternMatches:
+def _iter_for_pattern(
+    lines: typ.List[str], pattern: Pattern, matched_spans: LineSpans
+) -> PatternMatches:
     for lineno, line in enumerate(lines):
-        match = pattern.regexp.search(line)
-        if match and len(match.group(0)) > 0:
+        # NOTE: The first match on the line, that is not part of the match
+        #   of an earlier pattern (e.g. the "1.2.3" of "v1.2.3").
+        for match in pattern.regexp.finditer(line):
+            if len(match.group(0)) == 0:
+                continue
+            if _has_overlap(LineSpan(lineno, *match.span()), matched_spans):
+                continue
             yield PatternMatch(lineno, line, pattern, match.span(), match.group(0))
+            break
 
 
 def iter_matches(lines: typ.List[str], patterns: typ.List[Pattern]) -> PatternMatches:
@@ -78,8 +86,8 @@ def iter_matches(lines: typ.List[str], patterns: typ.List[Pattern]) -> PatternMa
     """
     matched_spans: LineSpans = []
     for pattern in patterns:
-        for match in _iter_for_pattern(lines, pattern):
-            needle_span = LineSpan(match.lineno, *match.span)
-            if not _has_overlap(needle_span, matched_spans):
-                yield match
-            matched_spans.append(needle_span)
+        pattern_spans: LineSpans = []
+        for match in _iter_for_pattern(lines, pattern, matched_spans):
+            pattern_spans.append(LineSpan(match.lineno, *match.span))
+            yield match
+        matched_spans.extend(pattern_spans)
